@@ -529,7 +529,12 @@ func TestVerifC29Exact(t *testing.T) {
 			case dk <= 8:
 				d = time.Duration(rapid.IntRange(100, 6000).Draw(t, "getDurMs2")) * time.Millisecond
 			default:
-				d = time.Hour
+				// "the rest of the recording": clients ask for hours or days (the duration is a maximum);
+				// beyond ~28.5 h a naive ns->ticks conversion of the window end overflows at 90 kHz
+				d = rapid.SampledFrom([]time.Duration{time.Hour, 30 * time.Hour, 100 * time.Hour, 2000 * time.Hour}).Draw(t, "getDurLong")
+				if d > time.Hour {
+					classes["get-duration-over-28h"] = true
+				}
 			}
 			durStr := d.String()
 			if ragged && rapid.Bool().Draw(t, "floatDuration") {
